@@ -469,6 +469,10 @@ impl Sim {
                 want.push(addr.id);
             }
         }
+        let armed = self.pending_read_fault.take();
+        if let (Some(n), Some(fs)) = (armed, &self.fs) {
+            fs.arm_read_fault(n);
+        }
         let res = with_rep!(&mut self.reps[r], rep => {
             let mut cache = take_cache(&mut rep.caches, peer);
             let out = guarded(|| {
@@ -478,8 +482,14 @@ impl Sim {
             rep.caches.insert(peer, cache);
             out
         });
+        let read_fault_fired = self.fs.as_ref().is_some_and(|fs| fs.disarm_read_fault());
         match res {
             Guarded::Panicked(m) => self.on_panic(Some("C20"), "PeerCache::add_command", m),
+            Guarded::Done(Err(_)) if read_fault_fired => {
+                // Narrow relaxation: the injected read error may fail the update; what the cache
+                // then holds must still satisfy the invariants (checked below).
+                self.stats.bump("fault.read_eio_failed_cache_update");
+            }
             Guarded::Done(Err(e)) => self.anomaly(format!("{ctx}: add_command error {e}")),
             Guarded::Done(Ok(())) => {
                 let after: Vec<CmdId> = with_rep!(&self.reps[r], rep => rep.caches.get(&peer).map(|c| c.heads().iter().map(|h| h.id).collect()).unwrap_or_default());
